@@ -708,6 +708,19 @@ impl<'a> VisitMut for LetTypePass<'a> {
     }
 }
 
+/// statement anchors: `PREFIX` (the statement starts with it) or `PREFIX ... NEEDLE` (it starts with PREFIX and NEEDLE
+/// occurs later in it) — the second form tells apart statements that only differ deep inside (the error kind of an
+/// `insert(.., ModuleSlot::Err(..))`) without counting occurrences, so that reordering them does not move a hint
+fn anchor_matches(stmt_norm: &str, pattern: &str) -> bool {
+    match pattern.split_once(" ... ") {
+        Some((pre, needle)) => {
+            let (pre, needle) = (norm(pre), norm(needle));
+            stmt_norm.starts_with(&pre) && stmt_norm[pre.len()..].contains(&needle)
+        }
+        None => stmt_norm.starts_with(&norm(pattern)),
+    }
+}
+
 // ---------------------------------------------------------------------------------------------
 // R6: for -> loop { match it.next() { Some(P) => B, None => break } }
 
@@ -1097,7 +1110,7 @@ impl<'a> VisitMut for InsertPass<'a> {
             for i in 0..self.specs.len() {
                 let (at, m, nth, within) = { let sp = &self.specs[i]; (sp.at.clone(), norm(&sp.mtch), sp.nth, norm(&sp.within)) };
                 let ctx_ok = within.is_empty() || self.ctx.iter().any(|c| c.starts_with(&within));
-                if (at == "before" || at == "after") && !m.is_empty() && sn.starts_with(&m) && ctx_ok {
+                if (at == "before" || at == "after") && !m.is_empty() && anchor_matches(&sn, &self.specs[i].mtch) && ctx_ok {
                     let c = self.counts.entry(i).or_insert(0);
                     let this = *c;
                     *c += 1;
